@@ -12,7 +12,19 @@
 // carries escaped {a, é, "a b"}, patterns of 1-2 segments over them + {x}/{y}/{*w}, every pair
 // of patterns (so every pair where one is more general), and the client's spelling of each
 // value {min = url.PathEscape: RawPath stays empty unless there is a slash; all = every byte
-// as %XX: RawPath set}, chosen per wildcard; value menu + the look-alike %C3%A9 of a literal.
+// as %XX: RawPath set}, chosen per wildcard; value menu + the look-alike %C3%A9 of a literal
+// + values that are not canonical paths {., .., a//b, /a, a/../b, a/./b, https://x/y}.
+//
+// Environment dimension of both universes: the goa runtime middleware mounted with Use in front
+// of the router {none, middleware.SmartRedirectSlashes, middleware.Debug(mux, w)} - the two
+// middlewares of goa's http/middleware package that consult the router themselves. A request
+// that matches a registered pattern under the reference matcher must reach that handler with
+// the original values whatever is mounted in front; a 3xx for it is a violation. What a
+// request receives that matches only with a trailing slash added/removed is not asserted.
+//
+// Third part (ctor.go): the path constructors goa GENERATES for services with 1-2 base paths
+// x 1-2 routes with the wildcards in every relative order, compiled and called with every
+// assignment of menu values, the built URL routed through a Muxer holding the method's patterns.
 //
 // Bound: all legal pattern sets of size 1 and 2 over the full alphabet, size 3 over a reduced
 // alphabet (quick) / the middle alphabet (thorough), sizes 4-6 over the reduced alphabet
@@ -644,6 +656,14 @@ func run(c *core.Ctx) {
 	c.Assume("the client's spelling of a value is one of two encoders per wildcard: url.PathEscape (minimal; the parsed URL has no RawPath unless the value has a slash) or every byte as %XX (RawPath always set); both decode to the same text")
 	c.Assume("readings the statement leaves open are not asserted: trailing slash added/removed, an escaped slash read as separator, empty single-segment capture, " +
 		"catch-all without its separating slash, status of a request whose path matches only registrations of another method")
+	c.Rule("environment: every phase named front=... mounts a goa runtime middleware (SmartRedirectSlashes, Debug) with Use in front of the router and of the observing middleware; " +
+		"the oracle is unchanged: a request matching a registered pattern reaches that handler with the original values, a redirect for it is a violation (signature ... front=<name>)")
+	c.Rule("generated path constructors: a state is one method (base paths x routes) of the family of ctor.go; a transition is one call of one generated constructor (server and client package) " +
+		"with one assignment of menu values to the wildcards of its pattern, bound by parameter name, in one calling style {escaped arguments, as the generated client}, routed through goahttp.NewMuxer()")
+	c.Assume("a path that is a pattern with an EMPTY single-segment value substituted (//a = /{x}/a with x empty, as much as /{*w} with w = /a) is an ambiguous request when another pattern matches it strictly: " +
+		"which of the two serves it is not asserted (empty single-segment values are not in the single-value menus for that reason)")
+	c.Assume("generated path constructors: constructor k of a method belongs to the k-th full path in the order routes outer, base paths inner (expr.RouteExpr.FullPaths); parameter names are read from the generated source; " +
+		"in client style a single-segment value containing a slash is executed but not asserted (the generated builder does not escape: recorded C02 finding)")
 	c.Assume("Use called after the first Handle panics inside chi (\"all middlewares must be defined before routes\"); the statement does not say Use must be accepted then, so this is recorded as an outcome, not a violation")
 	c.Assume("violation 'cases' printed by the core count distinct signatures once; exact per-signature request counts are in coverage.violation_request_counts")
 
